@@ -13,16 +13,19 @@ TStep ==
      \/ ~void /\ Ev.ev = "cfg" /\ Cfg(Ev.ncb)
      \/ ~void /\ Ev.ev = "hsend" /\ HostSend(Ev.g, Ev.t)
      \/ ~void /\ Ev.ev = "unsolicited" /\ Unsolicited
-     \/ ~void /\ Ev.ev = "call" /\ Call(Ev.i, Ev.kind, Ev.gids, Ev.delays, Ev.t, Ev.faulty)
+     \/ ~void /\ Ev.ev = "call" /\ Call(Ev.i, Ev.kind, Ev.gids, Ev.delays, Ev.t, Ev.faulty, Ev.exp)
      \/ ~void /\ Ev.ev = "drecv" /\ DevRecv(Ev.g, Ev.t)
+     \/ ~void /\ Ev.ev = "drecv" /\ Dev_DelayNotHonoured(Ev.g, Ev.t)
      \/ ~void /\ Ev.ev = "dclose" /\ DevClose(Ev.t)
      \/ ~void /\ Ev.ev = "state" /\ State(Ev.connected)
-     \/ ~void /\ Ev.ev = "ret" /\ Ev.ok /\ RetOk(Ev.i, Ev.got)
-     \/ ~void /\ Ev.ev = "ret" /\ Ev.ok /\ Ev.bytes /\ Dev_DelayNotHonoured(Ev.i, Ev.got)
+     \/ ~void /\ Ev.ev = "ret" /\ Ev.ok /\ RetOk(Ev.i, Ev.got, Ev.t)
+     \/ ~void /\ Ev.ev = "ret" /\ Ev.ok /\ Dev_LastDelayNotHonoured(Ev.i, Ev.got, Ev.t)
      \/ ~void /\ Ev.ev = "ret" /\ ~Ev.ok /\ RetFail(Ev.i, Ev.exc, Ev.t)
      \/ ~void /\ Ev.ev = "attempt" /\ Attempt(Ev.ok, Ev.t)
      \/ ~void /\ Ev.ev = "attempt" /\ Dev_NoRateLimit(Ev.ok, Ev.t)
      \/ ~void /\ Ev.ev = "callback" /\ Callback(Ev.name)
+     \/ ~void /\ Ev.ev = "identfail" /\ IdentFail
+     \/ ~void /\ Ev.ev = "udisc" /\ UserDisc
      \/ ~void /\ Ev.ev = "end" /\ EndOK(Ev.connected, Ev.unfinished)
      \/ ~void /\ Ev.ev = "end" /\ Ev.trickle /\ Dev_NeverReturns(Ev.unfinished)
 TSpec == TInit /\ [][TStep]_<<cvars, t, l>>
